@@ -10,7 +10,8 @@ SPEC = {
                  "composite_acts_as_sequence", "embed_full_register",
                  "apply_gate_slice_eq_embed", "apply_gate_mat_slice_eq_embed", "mat_route_columnwise",
                  "place_step_eq_embed", "apply_gate_eq_embed", "conditional_eq_unconditional_on_selected",
-                 "composite_matrix_eq_product", "loop_matrix_eq_pow", "complex_is_model",
+                 "composite_matrix_eq_product", "loop_matrix_eq_pow", "embed_preserves_unitarity",
+                 "term_documented_unitary", "complex_is_model",
                  "apply_gate_slice_eq_embed_complex"],
     "drivers": ["drv_c04"],
     "harness_bin": "c04",
